@@ -100,6 +100,13 @@ void h_comp3(void){ LOCALS; u64 nd = 2, src[2]; in_perm2(p); i32 ax = in_i32(-2,
   ref_flip_transpose(p, ax, shape, idx, src);
   ASSERT(vals[0] == ~data[src[0]*n1 + src[1]], "NumPy invert(flip(transpose(a))) element");
   ASSERT(same[0] == 1, "extracted operand is the address of the leaf array"); REACHED(); }
+/* 4-functor chain, every parenthesisation incl. (f*g)*(h*k): invert(flip(transpose(flip(a, ax2)), ax)) */
+void h_comp4(void){ LOCALS; u64 nd = 2, src[2]; in_perm2(p); i32 ax = in_i32(-2, 1); p[2] = (u32)ax; i32 ax2 = in_i32(-2, 1); p[3] = (u32)ax2;
+  ex[0] = shape[p[0]]; ex[1] = shape[p[1]]; in_index(idx, ex, nd, MAXE - 1);
+  int r = k_comp4(shape, data, p, OUTS, same); agree(r, 7, ex, nd, rc, dims, shapes, vals);
+  ref_flip_transpose(p, ax, shape, idx, src);                     /* index into flip(a, ax2) */
+  if (norm(ax2, 2) == 0) src[0] = n0 - 1 - src[0]; else src[1] = n1 - 1 - src[1];
+  ASSERT(vals[0] == ~data[src[0]*n1 + src[1]], "NumPy invert(flip(transpose(flip(a)))) element"); REACHED(); }
 void h_comp_sum(void){ LOCALS; u64 nd = 1; i32 ax = in_i32(-2, 1); p[0] = (u32)ax; u64 an = norm(ax, 2);
   ex[0] = an == 0 ? n1 : n0; in_index(idx, ex, nd, MAXE - 1);
   int r = k_comp_sum(shape, data, p, OUTS, same); agree(r, 2, ex, nd, rc, dims, shapes, vals);
